@@ -211,9 +211,10 @@ def run(ctx):
         okr = len(fors) == 1 and len(acc_assign) == 1
         if okr:
             acc = H.path_local(acc_assign[0]["l"])
-            env = S.Env(roles={"args": ("param", "args")})
+            an_ = H.param_by_type(bic, "Vec<blots_core::values::Value>", "args")
+            env = S.Env(roles={an_: ("param", "args")})
             lets = {n["pat"]["name"]: n["init"] for n in H.walk(ra["body"]) if H.kind(n) == "Let" and H.kind(n.get("pat")) == "Bind" and n.get("init") is not None}
-            init = S.norm(lets.get(acc), S.Env(roles={"args": ("param", "args")}, inline={k: (v, S.Env(roles={"args": ("param", "args")})) for k, v in lets.items() if k != acc})) if acc in lets else None
+            init = S.norm(lets.get(acc), S.Env(roles={an_: ("param", "args")}, inline={k: (v, S.Env(roles={an_: ("param", "args")})) for k, v in lets.items() if k != acc})) if acc in lets else None
             call = [x for x in H.walk(acc_assign[0]["r"]) if H.kind(x) == "MethodCall" and x.get("def") == FCALL][0]
             argv = H.strip(call["args"][1])
             first_is_acc = any(H.kind(x) == "Array" and x["es"] and H.path_local(x["es"][0]) == acc for lname, lv in lets.items() if lname == H.path_local(argv) for x in H.walk(lv))
